@@ -153,3 +153,9 @@ Definition api_cv_soft_sites (v : val) : val :=
   let firm := firm_sites x aas in
   VL (map (fun n => VZ (Z.of_nat n))
           (filter (fun i => negb (mem_nat i firm)) (raw_sites_ctx (in_rule x) (upstream_rl hs st) aas [] 0))).
+
+(* [x; peptides] -> realizable when a Sec codon within one codon of a record may be read as stop *)
+Definition api_cv_realizable_secwide (v : val) : val :=
+  let x := cv_input (argn 0 v) in
+  let m := flat_map (may_products_secwide x) (haplotypes false (in_vars x)) in
+  VL (map (fun p => ofB (mem_seq (getS p) m)) (getL (argn 1 v))).
